@@ -50,7 +50,8 @@ class DirectorySpecRepository(SpecRepository):
         self._index[index_key] = index_map
 
     def _get_specification_paths(self, base_path: str):
-        return Path(base_path).rglob("*.yaml")
+        # the directory order of the file system must not decide the order of components, events and hashes
+        return sorted(Path(base_path).rglob("*.yaml"))
 
     def _load_specifications(self, file_path: Path):
         with open(file_path, "r", encoding="utf-8") as f:
